@@ -145,6 +145,21 @@ def geffToDataframes {α : Type} (g : InMemGeff α) : Outcome (Tables α) :=
   | .valueError => .valueError
   | .indexError => .indexError
 
+/-! ### the column names a property must produce (specification side; used by the theorems'
+`NoCollision` hypothesis and, through the driver, by the harness' known-finding classification) -/
+
+/-- `name` when no trailing dimension differs from 1, `name_0 … name_{k-1}` when exactly one does
+(`k` = that dimension), none for higher rank -/
+def colNames {α : Type} (p : PropArr α) : List String :=
+  match squeezeTrail p.trail with
+  | [] => [p.name]
+  | [k] => (List.range' 0 k).map (subName p.name)
+  | _ => []
+
+/-- no two sources (id columns, property columns) claim the same column name -/
+def noCollisionB {α : Type} (idNames : List String) (props : List (PropArr α)) : Bool :=
+  decide ((idNames ++ props.flatMap colNames).Nodup)
+
 /-! ### `geff_to_csv`: which files are written (file system = path ↦ content) -/
 
 abbrev FS := List (String × String)
